@@ -60,7 +60,7 @@ def _width_ref(G):
     import z3
     from fpverif import spec, smt
     for k in range(1, 5):
-        sp = spec.WalkEuler(G, k, mult_max=max(2, G.number_of_nodes()))
+        sp = spec.WalkEuler(G, k, mult_max=max(2, G.number_of_nodes() * G.number_of_edges()))
         s = z3.Solver()
         s.add(sp.cons + spec.cover(sp, list(G.edges())))
         if str(s.check()) == "sat":
@@ -121,12 +121,23 @@ def wellformed_layout(nheaders: int, nblank: int, sp1: int, sp2: int, blocks: in
     """
     return _wellformed(246 if mask == 246 else 131, 1, 2, _conc(nheaders, 1, 2), _conc(nblank, 0, 1), _conc(sp1, -1, 5), _conc(sp2, -1, 5), _conc(blocks, 1, 2))
 
-def _wellformed(m, a, b, nh, nb, s1, s2, bl):
+def wellformed_count(mask: int, dn: int, blocks: int) -> bool:
+    """
+    pre: 0 <= mask < 16
+    pre: -1 <= dn <= 2
+    pre: 1 <= blocks <= 2
+    post: _
+    """
+    # the vertex-count line is a number that need not equal the number of distinct nodes on the edge lines
+    # (isolated vertices declared, stale count): the stored counts must describe the returned graph
+    return _wellformed(_conc(mask, 0, 15), 1, 2, 1, 0, -1, -1, _conc(blocks, 1, 2), _conc(dn, -1, 2))
+
+def _wellformed(m, a, b, nh, nb, s1, s2, bl, dn=0):
     with NoTracing():
         es = _edges(m, [a, b, 5])
         sps = _usable(es, [SUBPATHS[i] for i in (s1, s2) if i >= 0])
         nodes = {{x for (u, v, _w) in es for x in (u, v)}}
-        lines = _block("g1", es, nh, nb, sps, len(nodes))
+        lines = _block("g1", es, nh, nb, sps, max(1, len(nodes) + dn))
         G = gu.read_graph(lines)
         if not _expect(G, "g1", es, sps):
             return False
@@ -226,12 +237,12 @@ def symbolic_edge_line(line: str) -> bool:
             return G.has_edge(toks[0], toks[1]) and G[toks[0]][toks[1]]["flow"] == float(toks[2])
         return set(G.edges()) == {{("s", "t")}}
 
-wellformed_edges(3, 1); wellformed_layout(1, 0, -1, -1, 1, 131); malformed(3, 0, 0); symbolic_edge_line("a b 1")
+wellformed_edges(3, 1); wellformed_layout(1, 0, -1, -1, 1, 131); wellformed_count(3, 1, 1); malformed(3, 0, 0); symbolic_edge_line("a b 1")
 '''
 
 
 def gen_tasks(tier, seed):
-    tasks = [{"fn": "wellformed_edges"}, {"fn": "wellformed_edges_hi"}, {"fn": "wellformed_layout"}, {"fn": "malformed"}, {"fn": "symbolic_edge_line"}]
+    tasks = [{"fn": "wellformed_edges"}, {"fn": "wellformed_edges_hi"}, {"fn": "wellformed_layout"}, {"fn": "wellformed_count"}, {"fn": "malformed"}, {"fn": "symbolic_edge_line"}]
     for i, t in enumerate(tasks):
         t["tid"] = i
     return tasks
@@ -250,6 +261,7 @@ def run_task(task):
     what = {"wellformed_edges_hi": "as wellformed_edges, upper half of the edge-subset bitmasks (those containing the direct edge 1->12)",
             "wellformed_edges": "symbolic edge-subset bitmask (8 candidate edges incl. self loop and 2-cycle, multi-character node names) and a weight in {0, 2}",
             "wellformed_layout": "symbolic header count, blank-line count, two independent '#S' selectors (duplicates and sequences whose concatenation collides), number of blocks (1-2, read through read_graphs), on two edge sets",
+            "wellformed_count": "symbolic edge subset (16 masks), vertex-count line = number of nodes + d with d symbolic in -1..2 (isolated vertices declared / stale count), 1-2 blocks: stored counts must describe the returned graph",
             "malformed": "symbolic edge subset, corruption kind 0..8 (token counts, non-numeric weight / count, count with trailing text, missing count line, absent constraint edge), corrupted line index", "symbolic_edge_line": "one fully symbolic edge line of <= 5 characters"}[task["fn"]]
     res["samples"].append({"harness": task["fn"], "symbolic": what, "verdict": v["verdict"], "cpu_s": round(cpu, 1)})
     if v["verdict"] == "confirmed":
